@@ -114,6 +114,28 @@ def reporter_storage(chk, F, rule, cfg):
             chk.ob(rule, 'MismatchReporter::%s records one %s mismatch under the given argument index with the given actual/expected texts' % (name, kind), ok, config=cfg, fn=fn, site=name, what='%s record' % name)
     cf = F.fn('mismatch::MismatchesBuilder::collect_from_reporter')
     paths = symex.Interp(F).run(cf)
+    ext = [e for p in paths for e in p.calls(r'Extend<T>>?::extend$|Vec::extend\w*$')]
+    if ext and not any(p.called(r'Iterator>?::next$') for p in paths):
+        # `self.mismatches.extend(reporter.mismatches.into_iter().map(|(i, m)| (pat_index, i, m)))`: extend consumes the whole iterator in order
+        for e in ext:
+            own_src = lambda x: field_path(x) == (('param', 0, 3), ['mismatches'])  # noqa: E731
+            names = L.pipeline_calls(e.data[2][1], own_src)
+            ok = field_path(e.data[2][0])[1][-1:] == ['mismatches'] and names is not None and all(re.search(r'(IntoIterator>?::into_iter|Iterator>?::map)$', x) for x in names)
+            okc = False
+            for x in symex.subvalues(e.data[2][1]):
+                if is_call(x, r'Iterator>?::map$'):
+                    c = strip(x[2][1])
+                    if c[0] == 'agg' and c[1] == 'closure' and c[2] in F.fns:
+                        ups = dict(c[4])
+                        for q in symex.Interp(F).run(F.fns[c[2]]):
+                            r = strip(q.outcome[1]) if q.outcome[0] == 'return' else ('unk', '')
+                            parts = [y for _, y in r[4]] if r[0] == 'agg' else []
+                            up_pat = [k for k, v in ups.items() if mentions(v, lambda y: y == ('param', 0, 2)) or strip(v) == ('ref', (('local', 0, 2), ()), False)]
+                            okc = len(parts) == 3 and any(k in show(parts[0]) for k in (up_pat or list(ups))) and field_path(parts[1]) == (('param', 0, 2), ['0']) and field_path(parts[2]) == (('param', 0, 2), ['1']) and not list(F.fns[c[2]].calls())
+            chk.ob(rule, 'the collector walks the reporter\'s own list directly (no skipping/reordering adapter)', ok, config=cfg, fn=cf, site='collect-iter', what='collect_from_reporter extends from %s' % (names,), found=names)
+            chk.ob(rule, 'every reported mismatch is filed under the given pattern index, keeping its argument index', okc, config=cfg, fn=cf, site='collect', what='collect_from_reporter element (extend form)')
+        chk.floor(rule, 'reporter storage paths', len(chk.obligations) - n0, 5, config=cfg)
+        return
     L.loops_run_to_completion(chk, rule, cf, cfg, paths)
     for p in paths:
         for e in p.calls(r'Iterator>?::next$'):
